@@ -1,7 +1,8 @@
 """C01 / C03 (operation level): BaseWorklist.aspirate / dispense for concrete numbers of wells (symbolic contents)."""
 import z3
 
-from pyvc.contract import Contract, Scenario, register
+from pyvc.contract import Contract, Lemma, Scenario, register
+from pyvc.engine import LoopSpec
 from pyvc.models import sym_labware, sym_worklist
 from pyvc.params import sreal, sstr
 from pyvc.values import MapV, SeqV, Sym, WellV
@@ -62,6 +63,50 @@ def expected_records(kind):
             f"ad_record('{kind}', self, labware, colmajor(wells)[i], bcast(volumes, i, wells), kwargs))")
 
 
+def sym_scen(device, trough, vol_kind):
+    def make(ex):
+        from pyvc.params import real_fn, slist, well_fn
+
+        wl = sym_worklist(ex, device)
+        lw = sym_labware(ex, "L", trough)
+        ws, n = slist("wells", well_fn("w"))
+        fr = z3.Function("w_r", z3.IntSort(), z3.IntSort())
+        fc = z3.Function("w_c", z3.IntSort(), z3.IntSort())
+        i = z3.Int("qi")
+        ex.p.assume(z3.And(n >= 0, z3.ForAll([i], z3.And(fr(i) >= 0, fr(i) < 26, fc(i) >= 1))))
+        if vol_kind == "scalar":
+            vols = sreal("v")
+        else:
+            vols, m = slist("volumes", real_fn("v"))
+            ex.p.assume(m == n)
+        return {"self": wl, "labware": lw, "wells": ws, "volumes": vols, "label": None, "kwargs": MapV(items=[])}
+
+    return Scenario(f"{device}, {'trough' if trough else 'plate'}, list of wells of ANY length, volumes:{vol_kind}", make, requires=["printable(labware.name)"])
+
+
+def op_contract_sym(name, kind, lw_method, exc):
+    """aspirate / dispense for well lists of symbolic length: loop invariant over the ghost functions of the positive pairs"""
+    sign = "vol_minus" if kind == "A" else "vol_plus"
+    full = f"pair_records('{kind}', self, labware, wells, volumes, kwargs, {N})"
+    return Contract(
+        func=B + name, serves=["C01", "C03", "C04"], key=B + name + "#any-length",
+        scenarios=[sym_scen("EvoWorklist", False, "list"), sym_scen("FluentWorklist", True, "list"), sym_scen("EvoWorklist", True, "scalar")],
+        raises=[("AssertionError", None), ("KeyError", None), (exc, None), ("ValueError", None), ("InvalidOperationError", None)],
+        ensures=[
+            ("records", f"same(records(self), records(old_self) + {full})", ["C01"]),
+            ("tracked", f"same(labware._volumes, {sign}(old_labware._volumes, contrib(labware, wells, volumes)))", ["C01", "C04"]),
+        ],
+        exc_ensures=[
+            ("only-accepted-steps-recorded", f"pos_mono_all(wells, volumes) and is_prefix(records(self), records(old_self) + {full}) and "
+                                             f"(same(records(self), records(old_self)) or same(labware._volumes, {sign}(old_labware._volumes, contrib(labware, wells, volumes))))", ["C03"]),
+        ],
+        loops={0: LoopSpec(k="k", entry={"entry_records": "records(self)"},
+                           defs={"self.__records__": f"entry_records + pair_records('{kind}', self, labware, wells, volumes, kwargs, k)"},
+                           asserts=["pos_unfold(volumes, k)"])},
+        policy={LW + lw_method: "contract", AW: "contract", DW: "contract"},
+    )
+
+
 def op_contract(name, kind, lw_method, exc):
     exp = expected_records(kind)
     return Contract(
@@ -83,9 +128,23 @@ def op_contract(name, kind, lw_method, exc):
     )
 
 
+def _poscount_lemma(ex):
+    CNT = z3.Function("poscount", z3.IntSort(), z3.IntSort())
+    V = z3.Function("posvol", z3.IntSort(), z3.RealSort())
+    k, n, q = z3.Int("k"), z3.Int("n"), z3.Int("q")
+    unfold = z3.ForAll([q], z3.Implies(q >= 0, CNT(q + 1) == CNT(q) + z3.If(V(q) > 0, 1, 0)))
+    yield "bounds-base", z3.Implies(CNT(0) == 0, z3.And(CNT(0) >= 0, CNT(0) <= 0))
+    yield "bounds-step", z3.Implies(z3.And(unfold, k >= 0, CNT(k) >= 0, CNT(k) <= k), z3.And(CNT(k + 1) >= 0, CNT(k + 1) <= k + 1))
+    yield "monotone-base", z3.Implies(k >= 0, CNT(k) <= CNT(k))
+    yield "monotone-step", z3.Implies(z3.And(unfold, 0 <= k, k <= n, CNT(k) <= CNT(n)), CNT(k) <= CNT(n + 1))
+
+
 def install(world):
     register(world, op_contract("aspirate", "A", "remove", "VolumeUnderflowError"))
     register(world, op_contract("dispense", "D", "add", "VolumeOverflowError"))
+    register(world, op_contract_sym("aspirate", "A", "remove", "VolumeUnderflowError"))
+    register(world, op_contract_sym("dispense", "D", "add", "VolumeOverflowError"))
+    world.lemmas.append(Lemma("C01/poscount-lemmas", ["C01", "C03"], _poscount_lemma))
 
 
 # ----------------------------------------------------------------------------- distribute
